@@ -1,6 +1,7 @@
 import Ampy.Lemmas.Base
 import Ampy.Lemmas.Count
 import Ampy.Lemmas.Pipeline
+import Ampy.Lemmas.EndToEnd
 /-!
 # C04 — base height = configured percentile, inside the layer, never coded upward
 
@@ -114,5 +115,50 @@ theorem C04_base_inside {α} [DecidableEq α] (K : MetK) (P : Prms α) (w : Whic
   constructor
   · exact le_trans (minRat_le (hsub _ (minRat_mem hne))) hlo
   · exact le_trans hhi (le_maxRat (hsub _ (maxRat_mem hne)))
+
+/-- End to end: in every table of every chunk `run` returns, rows are in ascending base order and every
+row's base height is `calc_base_height` of its selected member heights (time order, look-back, percentile,
+exclusions), lies between the lowest and the highest member hit, and is coded by flooring — never upward;
+min / max / mean / variance / thickness are the statistics of the member hits; fluffiness is non-negative. -/
+theorem C04_run_rows {α} [DecidableEq α] (K : Kern) (P : PPrms α) (checked : List (Hit α))
+    (hA : Accepted K P checked) (c : Chunk α) (h : run K P checked = .ok c) (w : Which) :
+    ∃ t ids, tableOf c w = some t ∧ idsOf c w = some ids ∧
+      t.Pairwise (fun a b => a.base ≤ b.base) ∧
+      ∀ r ∈ t,
+        calcBase K.pctl (selectSorted K.toMetK c.data (baseMask P.toPrms c.data ids r.cid)) P.lookback P.basePerc
+          = .ok r.base ∧
+        (let hs := (members c.data ids r.cid).filterMap (·.height)
+         minRat hs ≤ r.base ∧ r.base ≤ maxRat hs ∧
+         r.hmin = minRat hs ∧ r.hmax = maxRat hs ∧ r.mean = meanRat hs ∧ r.var = varRat hs ∧
+         r.thick = r.hmax - r.hmin ∧ 0 ≤ r.thick ∧ 0 ≤ r.fluff) ∧
+        ((heightHundreds r.base : Int) : Rat) * 100 ≤ r.base ∧
+        ∃ p, okta2code (.int r.okta) = .ok (some p) ∧ r.code = p ++ fmt03 (heightHundreds r.base) := by
+  obtain ⟨t, ids, ht, hi, hx, hrows⟩ := run_rows K P checked hA c h w
+  obtain ⟨t', _, ht', _, _, hok, _, _⟩ := run_tableOK K P checked hA c h w
+  rw [ht] at ht'; cases ht'
+  refine ⟨t, ids, ht, hi, hok.sorted, ?_⟩
+  intro r hr
+  obtain ⟨hc, r₀, hm, he⟩ := hrows r hr
+  have hb := (C04_row_base K.toMetK P.toPrms w c.data ids r.cid r₀ hm).1
+  have hst := C04_stats K.toMetK P.toPrms w c.data ids r.cid r₀ hm
+  have eb : r.base = r₀.base := by rw [he]
+  have e1 : r.hmin = r₀.hmin := by rw [he]
+  have e2 : r.hmax = r₀.hmax := by rw [he]
+  have e3 : r.mean = r₀.mean := by rw [he]
+  have e4 : r.var = r₀.var := by rw [he]
+  have e5 : r.thick = r₀.thick := by rw [he]
+  have e6 : r.fluff = r₀.fluff := by rw [he]
+  obtain ⟨hne, hsub⟩ := selectSorted_mem K.toMetK P.toPrms c.data ids r.cid hA.kern.met hx.toOK hc hA.prms.t0
+  obtain ⟨b, hb', hlo, hhi⟩ := calcBase_between K.pctl _ P.lookback P.basePerc hne hA.kern.met.pctl_between
+  rw [hb] at hb'
+  have hbase : r₀.base = b := Except.ok.inj hb'
+  obtain ⟨⟨p, hp, hcode⟩, hfl⟩ := C04_code_floor r.okta r.base r.code (hok.codes r hr)
+  refine ⟨by rw [eb]; exact hb, ?_, hfl, p, hp, hcode⟩
+  simp only at hst ⊢
+  obtain ⟨s1, s2, s3, s4, s5, s6, s7⟩ := hst
+  refine ⟨?_, ?_, by rw [e1]; exact s1, by rw [e2]; exact s2, by rw [e3]; exact s3, by rw [e4]; exact s4,
+    by rw [e5, e1, e2]; exact s5, by rw [e5]; exact s6, by rw [e6]; exact s7⟩
+  · rw [eb, hbase]; exact le_trans (minRat_le (hsub _ (minRat_mem hne))) hlo
+  · rw [eb, hbase]; exact le_trans hhi (le_maxRat (hsub _ (maxRat_mem hne)))
 
 end Ampy
